@@ -67,7 +67,8 @@ def _bind(fn, call, is_method, prefix):
             if j < 0:
                 return None, None
             a = defaults[j]
-        if isinstance(a, (ast.Name, ast.Constant)) or (isinstance(a, ast.Attribute) and isinstance(a.value, ast.Name)):
+        if isinstance(a, (ast.Name, ast.Constant)) or (isinstance(a, ast.Attribute) and isinstance(a.value, ast.Name)) or \
+                (isinstance(a, ast.UnaryOp) and isinstance(a.operand, ast.Constant)):
             mp[p] = a
         else:
             tmp = "%s%s" % (prefix, p)
